@@ -725,6 +725,10 @@ var s2programs = []string{
 	// errors raised by built-in code and caught: exhausted built-in iterators asked again, failing built-ins, the `_` object
 	// (an error object kept by the interpreter and handed to several evaluations would be written by each of them)
 	"it := [1]._iter; it.next; [nil.try.{|u| it.next}.err.msg, nil.try.{|u| (1:1)._iter.next}.err.msg, nil.try.{|u| \"\"._iter.next}.err.msg, nil.try.{|u| {}._iter.next}.err.msg, nil.try.{|u| %{}._iter.next}.err.msg]",
+	// indexing, slicing, reversing and stepping strs and arrays of different lengths (scratch space kept by the interpreter
+	// for such operations would be shared by the evaluations)
+	"s := \"aaaaaaaaaaaaaaaaaaaaaaaaaaaaaaaa\"; [s[0], s[31], s[3:9], s[::-1].len, s.len, (s[0]:\"d\").A, s@{|c| c}.len, [1, 2, 3][1:], [1, 2, 3][::-1]]",
+	"s := \"日本語日本語\"; [s[0], s[5], s[1:3], s[::-1], s.len, s._incBy(1), s@{|c| c}.len, [9, 8][0], [9, 8][::-1]]",
 	"[nil.try.{|u| 1 / 0}.err.msg, nil.try.{|u| nil.zz_c20_nope}.err.msg, nil.try.{|u| _}.err.msg, nil.try.{|u| [1].withI.{|w| w.next; w.next}}.err.msg, nil.try.{|u| zz_c20_undefined}.err.msg]",
 }
 
